@@ -1,30 +1,32 @@
-(* Tie/Tie_C16.v — obligations over the constants regenerated from /repo on every run (Gen/GenHash.v): the
-   statement of hash_combine_impl has the shape the model follows, and its three literals and the two initial
-   seeds are the ones the exact-value model (Misc/Hash.v) computes with. *)
-From Coq Require Import NArith String.
-From Nitro Require Import Gen.GenHash Misc.Hash.
+(* Tie/Tie_C16.v — obligations over the constants regenerated from /repo on every run (Gen/GenHash.v).
+   The model (Misc/Hash.v) is parametric in the magic number, the two shift amounts and the two initial seeds, and
+   the instance in use (Misc/HashInst.v: the_params) is BUILT FROM the generated values; nothing here compares them
+   with hand-written numbers.  What is required: the statement of hash_combine_impl has the shape the model follows
+   (otherwise the translator emits GWordUnknown and `params_readable` is false), the combine step built from the
+   generated literals is the instance's combine on every input, and the values are admissible. *)
+From Coq Require Import NArith String Bool.
+From Nitro Require Import Gen.GenHash Misc.Hash Misc.HashInst.
 Local Open Scope N_scope.
 
-Theorem tie_C16_magic : gen_hash_magic = GWord magic.
+(* every constant was read, from a statement / initialisation of the expected shape *)
+Theorem tie_C16_shape_readable : params_readable = true.
 Proof. vm_compute. reflexivity. Qed.
 
-Theorem tie_C16_shifts : gen_hash_shl = GWord shl_amt /\ gen_hash_shr = GWord shr_amt.
-Proof. vm_compute. split; reflexivity. Qed.
-
-Theorem tie_C16_seeds : gen_hash_tuple_seed = GWord tuple_seed /\ gen_hash_variant_seed = GWord variant_seed.
-Proof. vm_compute. split; reflexivity. Qed.
-
-(* the combine step built from the generated literals is the model's combine, on every seed and value *)
+(* the combine step built from the generated literals is the model instance's combine, on every seed and value *)
 Definition gen_combine (seed v : N) : option N :=
   match gen_hash_magic, gen_hash_shl, gen_hash_shr with
   | GWord c, GWord a, GWord b => Some (combine_with c a b seed v)
   | _, _, _ => None
   end.
 
-Theorem tie_C16_combine : forall seed v, gen_combine seed v = Some (combine seed v).
+Theorem tie_C16_combine : forall seed v, gen_combine seed v = Some (combine the_params seed v).
 Proof. intros seed v. reflexivity. Qed.
 
-(* the literals are representable: the magic number is a 64-bit word and both shifts are below the word size
-   (a shift by >= 64 would be undefined behaviour in the code and is not what the model computes) *)
-Theorem tie_C16_ranges : magic < W /\ shl_amt < 64 /\ shr_amt < 64.
-Proof. vm_compute. repeat split. Qed.
+(* the same for the two initial seeds *)
+Theorem tie_C16_seeds : gen_hash_tuple_seed = GWord (hp_tuple_seed the_params) /\ gen_hash_variant_seed = GWord (hp_variant_seed the_params).
+Proof. vm_compute. split; reflexivity. Qed.
+
+(* admissible: the magic number and the seeds are 64-bit words, both shifts are below the word size — the premise
+   `hp_ok` of the property theorems, for the instance in use *)
+Theorem tie_C16_ranges : hp_ok the_params = true.
+Proof. vm_compute. reflexivity. Qed.
